@@ -88,10 +88,10 @@ func c14Durable(o core.Origin) string {
 // c14Exceptions: non-atomic primitives that may touch a durable path, by
 // function and primitive, with the reason.
 var c14Exceptions = map[string]string{
-	"(*dhcpd.server).handleReset|os.Remove":                      "factory reset of DHCP: deliberately deletes the lease database",
-	"(*filtering.DNSFilter).handleFilteringRemoveURL|os.Rename":  "a removed list's file is renamed to .old as a whole (rename is atomic; the list is no longer configured)",
-	"(*filtering.DNSFilter).refreshFiltersIntl|os.Remove":        "removes the .old leftover of a deleted list, not a live list file",
-	"(*filtering.DNSFilter).refreshFiltersIntl$1|os.Remove":      "removes the .old leftover of a deleted list, not a live list file",
+	"(*dhcpd.server).handleReset|os.Remove":                       "factory reset of DHCP: deliberately deletes the lease database",
+	"(*filtering.DNSFilter).handleFilteringRemoveURL|os.Rename":   "a removed list's file is renamed to .old as a whole (rename is atomic; the list is no longer configured)",
+	"(*filtering.DNSFilter).refreshFiltersIntl|os.Remove":         "removes the .old leftover of a deleted list, not a live list file",
+	"(*filtering.DNSFilter).refreshFiltersIntl$1|os.Remove":       "removes the .old leftover of a deleted list, not a live list file",
 	"(*filtering.DNSFilter).periodicallyRefreshFilters|os.Remove": "removes the .old leftover of a deleted list, not a live list file",
 }
 
